@@ -384,7 +384,14 @@ def compare(prog, inputs, opts, hyp=()):
     if cb["unassigned_reads"] and not opts.get("initialize_vars"):
         res["cb"] = "needs-init"
         return res
-    conv = harness.convert(text, **opts)
+    if opts.get("cli"):
+        # the same options given on the command line (-s n, -z, -D): what READ, PRINT and the string functions see may not
+        # depend on which door the program came through
+        from .c13 import cli_convert
+
+        conv = cli_convert(text, "prog", opts.get("default_str_storage", 32), opts.get("initialize_vars", False), False, deps=False)
+    else:
+        conv = harness.convert(text, **opts)
     if not conv["ok"]:
         res["problems"].append(("refused" if conv["documented"] else "internal", conv.get("exc")))
         return res
@@ -492,6 +499,8 @@ def run_case(case):
         prog = g.program(case["nblocks"])
         inputs = g.inputs
     opts = {"initialize_vars": case["init"], "default_str_storage": storage}
+    if case.get("cli"):
+        opts["cli"] = True
     obs = {"counters": {}, "viols": [], "sets": {}}
     obs["key"] = progtools.prog_key(prog) + "|%s|%s" % (storage, case["init"])
     r = compare(prog, inputs, opts)
@@ -536,4 +545,5 @@ def run_case(case):
 def cases(tier, seed):
     N = 1500 if tier == "quick" else 250000
     for i in range(N):
-        yield {"seed": seed * 104723 + i, "nblocks": 1 + i % 4, "storage": 32 if i % 3 else [80, 80, 33, 255, 64][(i // 3) % 5], "init": i % 4 != 3, "sample": i % 500 == 0}
+        yield {"seed": seed * 104723 + i, "nblocks": 1 + i % 4, "storage": 32 if i % 3 else [80, 80, 33, 255, 64][(i // 3) % 5], "init": i % 4 != 3, "sample": i % 500 == 0,
+               "cli": i % 9 == 6}
